@@ -15,6 +15,8 @@
 import LiteFSVerif.Props.C11
 import LiteFSVerif.Gen.Facts
 import LiteFSVerif.Proofs.SnapshotBytes
+import LiteFSVerif.Gen.Skel
+import LiteFSVerif.Model.ExpectedSkel
 
 namespace LiteFSVerif.C10
 open LiteFSVerif LiteFSVerif.Locks LiteFSVerif.Engine LiteFSVerif.RWMutex
@@ -113,5 +115,13 @@ theorem C10_snapshot_is_image_of_its_position (s : Engine.Eng) (nodeID : Nat) (f
         ∀ i, i < d'.size → ∃ pg, Cluster.logicalPage s (i / s.pageSize) = some pg ∧
           BA.getD d' i = BA.getD pg (i % s.pageSize) :=
   Cluster.snapshot_bytes s nodeID f h hlock
+
+/-- further regenerated control skeletons (see Model/ExpectedSkel.lean): DB_Export, DB_WriteSnapshotTo, DB_readPage, Server_streamLTXSnapshot -/
+theorem C10_source_skeletons :
+    Gen.Skel.DB_Export = Expected.Skel.DB_Export ∧
+    Gen.Skel.DB_WriteSnapshotTo = Expected.Skel.DB_WriteSnapshotTo ∧
+    Gen.Skel.DB_readPage = Expected.Skel.DB_readPage ∧
+    Gen.Skel.Server_streamLTXSnapshot = Expected.Skel.Server_streamLTXSnapshot :=
+  ⟨rfl, rfl, rfl, rfl⟩
 
 end LiteFSVerif.C10
